@@ -28,6 +28,7 @@ def pytest_runtest_logreport(report):
     if report.when == "teardown":
         for name, detail in mon.CONTRACTS.take():
             _STATE["failures"].append({"test": report.nodeid, "contract": name, "detail": detail[:600]})
+        mon.CONTRACTS.take_errors()
 
 
 def pytest_sessionfinish(session, exitstatus):
